@@ -785,6 +785,13 @@ struct LcSim : Harness {
     for (auto &op : plan.at("ops").a) if (op.k == Json::Arr && op.size() > 1 && op[0].s == "load") { any = true; if ((size_t) op[1].num() == mi) me = true; }
     return me || !any;
   }
+  // ... in the order in which that history loads them (the order decides what the link step can inline)
+  static std::vector<size_t> load_order(const Json &plan, size_t nm) {
+    std::vector<size_t> v;
+    for (auto &op : plan.at("ops").a) if (op.k == Json::Arr && op.size() > 1 && op[0].s == "load") { size_t mi = (size_t) op[1].num() % (nm ? nm : 1); if (std::find(v.begin(), v.end(), mi) == v.end()) v.push_back(mi); }
+    if (v.empty()) for (size_t mi = 0; mi < nm; mi++) v.push_back(mi);
+    return v;
+  }
   // The same program with the most ordinary history under each engine: interpreter, eager generation at -O0 .. -O3.
   // One letter per engine: O as the model says, W wrong value, C crash, H watchdog, X another violation.
   std::string engine_profile(const Json &plan, int tmo) {
@@ -793,7 +800,7 @@ struct LcSim : Harness {
       bool interp = round < 0; Json p = plan; Json ops = Json::array(); size_t nm = plan.at("prog").at("mods").size();
       auto push = [&](std::initializer_list<Json> l) { Json o = Json::array(); for (auto &x : l) o.push(x); ops.push(o); };
       push({"opt", interp ? 2 : round});
-      for (size_t mi = 0; mi < nm; mi++) if (loaded_in(plan, mi)) { push({"scan", (long long) mi}); push({"load", (long long) mi}); }
+      for (size_t mi : load_order(plan, nm)) { push({"scan", (long long) mi}); push({"load", (long long) mi}); }
       push({"link", interp ? 1 : 2, 0});
       for (auto &op : plan.at("ops").a) if (op.k == Json::Arr && op.size() > 1 && (op[0].s == "call" || op[0].s == "interp")) { Json c = op; if (!interp) c[0] = Json("call"); ops.push(c); }
       p.set("ops", ops); p["knobs"].set("placement", (int) P_PACKED_FAR);
@@ -852,7 +859,7 @@ struct LcSim : Harness {
         auto push = [&](std::initializer_list<Json> l) { Json o = Json::array(); for (auto &x : l) o.push(x); ops.push(o); };
         push({"opt", level});
         for (auto &op : plan.at("ops").a) if (op.k == Json::Arr && op.size() > 1 && (op[0].s == "scan" || op[0].s == "c2m" || op[0].s == "bin")) ops.push(op);
-        for (size_t mi = 0; mi < nm; mi++) if (loaded_in(plan, mi)) { push({"scan", (long long) mi}); push({"load", (long long) mi}); }
+        for (size_t mi : load_order(plan, nm)) { push({"scan", (long long) mi}); push({"load", (long long) mi}); }
         push({"link", interp ? 1 : 2, 0});
         for (auto &op : plan.at("ops").a) if (op.k == Json::Arr && op.size() > 1 && (op[0].s == "call" || op[0].s == "interp")) { Json c = op; c[0] = Json(interp && e.sig == "interp" ? "interp" : "call"); ops.push(c); }
         p.set("ops", ops);
@@ -877,7 +884,7 @@ struct LcSim : Harness {
         Json p = plan; Json ops = Json::array(); size_t nm = plan.at("prog").at("mods").size();
         auto push = [&](std::initializer_list<Json> l) { Json o = Json::array(); for (auto &x : l) o.push(x); ops.push(o); };
         push({"opt", level});
-        for (size_t mi = 0; mi < nm; mi++) if (loaded_in(plan, mi)) { push({"scan", (long long) mi}); push({"load", (long long) mi}); }
+        for (size_t mi : load_order(plan, nm)) { push({"scan", (long long) mi}); push({"load", (long long) mi}); }
         push({"link", 2, 0});
         p.set("ops", ops); p["knobs"].set("placement", (int) P_PACKED_FAR);
         ChildEnd c = run_isolated(*this, p, hang_seconds(), false);
@@ -907,7 +914,7 @@ struct LcSim : Harness {
       auto push = [&](std::initializer_list<Json> l) { Json o = Json::array(); for (auto &x : l) o.push(x); ops.push(o); };
       push({"opt", level});
       for (auto &op : plan.at("ops").a) if (op.k == Json::Arr && op.size() > 1 && (op[0].s == "scan" || op[0].s == "c2m" || op[0].s == "bin")) ops.push(op);  // same creation routes
-      for (size_t mi = 0; mi < nm; mi++) if (loaded_in(plan, mi)) { push({"scan", (long long) mi}); push({"load", (long long) mi}); }
+      for (size_t mi : load_order(plan, nm)) { push({"scan", (long long) mi}); push({"load", (long long) mi}); }
       push({"link", 2, 0});
       bool hang_in_call = was_hang && (e.detail.find("during call through address") != std::string::npos || e.detail.find("during MIR_interp") != std::string::npos);  // the generated code spins, not the generator
       if (!was_hang || hang_in_call) for (auto &op : plan.at("ops").a) if (op.k == Json::Arr && op.size() > 1 && (op[0].s == "call" || op[0].s == "interp")) { Json cc = op; cc[0] = Json("call"); ops.push(cc); }  // and the same executions
